@@ -226,11 +226,12 @@ def h_total(env, ops, n, func_ops=None):
 
 
 def h_random(env, ops, n, func_ops=None):
-    """no desired result: one shot with a SYMBOLIC uniform draw per measurement; the recorded outcome string, the
-    statevector and the applied gates must be those of the branch the draw selected, and the branch is taken exactly
-    when u >= P(0) (resp. u < P(0))"""
+    """no desired result: one shot with a uniform draw u_k per measurement supplied by the harness (SYMBOLIC in symbolic
+    mode); the recorded outcome string, the statevector and the applied gates must be those of the branch the draws
+    selected, and outcome 1 is taken exactly when P(0) < u (Born rule)"""
     from tangelo.linq import Circuit
     import tangelo.linq.target.backend as bk
+    import numpy as real_np
     B = Builder(env)
     gates = B.gates(ops)
     cm = None
@@ -239,15 +240,17 @@ def h_random(env, ops, n, func_ops=None):
         cm = lambda m: fg[m]  # noqa
     circ = Circuit(gates, n_qubits=n, cmeasure_control=cm)
     psi = R.basis_state(n, 0)
-    if env.symbolic:
-        b = make_backend(env, n_shots=1)
-        us = []
+    b = make_backend(env, n_shots=1)
+    us = []
 
+    def fake_random(*a):
+        u = env.real(f"u{len(us)}", lo=0, hi=1)
+        us.append(u)
+        return u
+
+    if env.symbolic:
         class Rnd:
-            def random(self_inner, *a):
-                u = env.real(f"u{len(us)}", lo=0, hi=1)
-                us.append(u)
-                return u
+            random = staticmethod(fake_random)
 
         class NpR:
             def __getattr__(self_inner, k):
@@ -259,33 +262,38 @@ def h_random(env, ops, n, func_ops=None):
             freqs, sv = b.simulate(circ, return_statevector=True)
         finally:
             bk.__dict__["np"] = bk.__dict__.pop("_verif_np")
-        outs = list(circ.success_probabilities)
-        env.check_true(len(outs) == 1, "one shot records one outcome string", detail=str(outs))
-        s = outs[0]
-        phi, applied = run_branch(B, ops, n, psi, list(s), func_ops)
-        P = circ.success_probabilities[s]
-        env.check_eq(P, norm2(phi), f"recorded probability of the drawn string {s}")
-        r = _sqrt(env, P)
-        env.check_vec_eq([x * r for x in list(sv)], phi, f"statevector of the drawn branch {s}")
-        got = [(g.name, g.target, g.control) + ((g.parameter,) if g.name in ("MEASURE", "CMEASURE") else ()) for g in circ.applied_gates]
-        env.check_same(got, [tuple(a) for a in applied], "applied_gates of the drawn branch")
-        # Born rule for the first draw: outcome "1" iff P(first = 0) < u0
+    else:
+        orig = real_np.random.random
+        real_np.random.random = fake_random
+        try:
+            freqs, sv = b.simulate(circ, return_statevector=True)
+        finally:
+            real_np.random.random = orig
+    outs = list(circ.success_probabilities)
+    env.check_true(len(outs) == 1, "one shot records one outcome string", detail=str(outs))
+    s = outs[0]
+    env.check_true(len(us) == len(s), "one uniform draw per measurement performed", detail=f"{len(us)} draws for outcome string {s}")
+    phi, applied = run_branch(B, ops, n, psi, list(s), func_ops)
+    P = circ.success_probabilities[s]
+    env.check_eq(P, norm2(phi), f"recorded probability of the drawn string {s}")
+    r = _sqrt(env, P)
+    env.check_vec_eq([x * r for x in list(sv)], phi, f"statevector of the drawn branch {s}")
+    got = [(g.name, g.target, g.control) + ((g.parameter,) if g.name in ("MEASURE", "CMEASURE") else ()) for g in circ.applied_gates]
+    env.check_same(got, [tuple(a) for a in applied], "applied_gates of the drawn branch")
+    # Born rule for the first draw: outcome "1" iff P(first = 0) < u0
+    if us:
         st0, _ = run_branch(B, ops[:_first_meas(ops)], n, psi, [], func_ops)
         q = ops[_first_meas(ops)][1]
         _, p0 = R.project(st0, n, q, 0)
-        if s[0] == "1":
-            env.check_true((Sym.of(p0) < us[0]), "first outcome 1 only if P(0) < u")
+        if env.symbolic:
+            if s[0] == "1":
+                env.check_true((Sym.of(p0) < us[0]), "first outcome 1 only if P(0) < u")
+            else:
+                env.check_true((Sym.of(p0) >= us[0]), "first outcome 0 only if P(0) >= u")
         else:
-            env.check_true((Sym.of(p0) >= us[0]), "first outcome 0 only if P(0) >= u")
-    else:
-        b = make_backend(env, n_shots=1)
-        freqs, sv = b.simulate(circ, return_statevector=True)
-        outs = list(circ.success_probabilities)
-        s = outs[-1]
-        phi, applied = run_branch(B, ops, n, psi, list(s), func_ops)
-        P = circ.success_probabilities[s]
-        env.check_eq(P, norm2(phi), f"recorded probability of the drawn string {s}")
-        env.check_vec_eq([x * (complex(P).real ** 0.5) for x in list(sv)], phi, f"statevector of the drawn branch {s}")
+            want = "1" if complex(p0).real < us[0] else "0"
+            if abs(complex(p0).real - us[0]) > 1e-9:
+                env.check_same(s[0], want, "first outcome follows the Born rule for the supplied draw u0")
 
 
 def _first_meas(ops):
